@@ -188,4 +188,59 @@ theorem P0x9212_Parse_total (fuel : Nat) (p : model_P0x9212) (j : jt808_JTMessag
     exact P0x9212_loop_ok j j.Body L fuel 0 _ _ rfl (by simp only []; omega) (by simp only []; exact hl) (by simp only []; omega)
   all_goals omega
 
+/-- the multimedia-id list of 0x0805: every id is read inside the body the length check admitted -/
+theorem T0x0805_loop_ok (j : jt808_JTMessage) (body : Bytes) : ∀ (fuel i : Nat) (t : model_T0x0805) (k : Int), k = (i : Int) →
+    i ≤ t.MultimediaIDNumber.toNat → body.length = 5 + 4 * t.MultimediaIDNumber.toNat → t.MultimediaIDNumber.toNat - i < fuel →
+    (model_T0x0805_Parse_loop1 fuel t j body k).isOk = true
+  | 0, _, _, _, _, _, _, h => by omega
+  | fuel + 1, i, t, k, hk, hi, hl, hf => by
+    subst hk
+    unfold model_T0x0805_Parse_loop1
+    simp only [slice, u32_ite, bind_ite', X.bind_ok, X.bind_panic, List.length_take, List.length_drop, X.isOk_ite_iff, X.isOk_ok,
+      X.isOk_panic, implies_true, and_true, true_and, decide_eq_true_eq, Int.ofNat_eq_natCast]
+    intro hlt
+    refine ⟨fun hs => ⟨fun h2 => ?_, fun h2 => ?_⟩, fun hs => ?_⟩
+    · exact T0x0805_loop_ok j body fuel (i + 1) _ _ (by omega) (by simp only []; omega) (by simp only []; omega) (by simp only []; omega)
+    · omega
+    · omega
+
+theorem T0x0805_Parse_total (fuel : Nat) (t : model_T0x0805) (j : jt808_JTMessage) (hf : j.Body.length < fuel) :
+    (model_T0x0805_Parse fuel t j).isOk = true := by
+  simp only [model_T0x0805_Parse, model_T0x0805_Parse_j3, model_T0x0805_Parse_j2]
+  simp only [sliceTo, slice, idx_ite, u16_ite, bind_ite', X.bind_ok, X.bind_panic, List.length_take, List.length_drop, X.isOk_ite_iff,
+    X.isOk_ok, X.isOk_panic, implies_true, and_true, true_and, decide_eq_true_eq, bne_iff_ne, ne_eq, Int.ofNat_eq_natCast, Decidable.not_not]
+  intro h5
+  refine ⟨fun a => ⟨fun b => ⟨fun c => ⟨fun d => ⟨fun e hlen => ?_, fun e => ?_⟩, fun d => ?_⟩, fun c => ?_⟩, fun b => ?_⟩, fun a => ?_⟩
+  all_goals (simp only [len_eq, Int.reduceToNat, Nat.sub_zero] at *)
+  · refine isOk_bind _ _ ?_ (fun r => rfl)
+    exact T0x0805_loop_ok j j.Body fuel 0 _ _ rfl (by simp only []; omega) (by simp only []; omega) (by simp only []; omega)
+  all_goals omega
+
+/-- the re-request list of 0x8800 -/
+theorem P0x8800_loop_ok (j : jt808_JTMessage) (body : Bytes) : ∀ (fuel i : Nat) (p : model_P0x8800) (k : Int), k = (i : Int) →
+    i ≤ p.AgainPackageCount.toNat → body.length = 5 + 2 * p.AgainPackageCount.toNat → p.AgainPackageCount.toNat - i < fuel →
+    (model_P0x8800_Parse_loop1 fuel p j body k).isOk = true
+  | 0, _, _, _, _, _, _, h => by omega
+  | fuel + 1, i, p, k, hk, hi, hl, hf => by
+    subst hk
+    unfold model_P0x8800_Parse_loop1
+    simp only [slice, u16_ite, bind_ite', X.bind_ok, X.bind_panic, List.length_take, List.length_drop, X.isOk_ite_iff, X.isOk_ok,
+      X.isOk_panic, implies_true, and_true, true_and, decide_eq_true_eq, Int.ofNat_eq_natCast]
+    intro hlt
+    refine ⟨fun hs => ⟨fun h2 => ?_, fun h2 => ?_⟩, fun hs => ?_⟩
+    · exact P0x8800_loop_ok j body fuel (i + 1) _ _ (by omega) (by simp only []; omega) (by simp only []; omega) (by simp only []; omega)
+    · omega
+    · omega
+
+theorem P0x8800_Parse_total (fuel : Nat) (p : model_P0x8800) (j : jt808_JTMessage) (hf : j.Body.length < fuel) :
+    (model_P0x8800_Parse fuel p j).isOk = true := by
+  simp only [model_P0x8800_Parse, model_P0x8800_Parse_j3, model_P0x8800_Parse_j2]
+  simp only [sliceTo, slice, idx_ite, u16_ite, u32_ite, bind_ite', X.bind_ok, X.bind_panic, List.length_take, List.length_drop, X.isOk_ite_iff,
+    X.isOk_ok, X.isOk_panic, implies_true, and_true, true_and, decide_eq_true_eq, bne_iff_ne, beq_iff_eq, ne_eq, Int.ofNat_eq_natCast, Decidable.not_not]
+  repeat' (first | (intro _) | constructor)
+  all_goals (try simp only [len_eq, Int.reduceToNat, Nat.sub_zero] at *)
+  all_goals first | omega |
+    (refine isOk_bind _ _ ?_ (fun r => rfl)
+     exact P0x8800_loop_ok j j.Body fuel 0 _ _ rfl (by simp only []; omega) (by simp only []; omega) (by simp only []; omega))
+
 end JT.Gen.GoModel
